@@ -569,9 +569,10 @@ class KeychainSqlite3(Keychain):
         """
         name = Name.to_bytes(id_name)
         if name not in self:
+            # The Identity row is committed together with its Key, or not at all
             with self.conn:
                 self.conn.execute('INSERT INTO identities (identity) VALUES (?)', (name,))
-            self.new_key(name)
+                self.new_key(name)
         if not self.has_default_identity():
             self.set_default_identity(name)
         return self[name]
